@@ -194,10 +194,13 @@ fn judge_desc(rep: &mut Report, case: u64, p: &Pol, pstr: &str, d: &Descriptor<S
 /// Placeholder policy for per-leaf structural checks (meaning is judged on the whole descriptor).
 fn leaf_pol_any() -> Pol { Pol::Trivial }
 
-/// A signer that has a maximum-size ECDSA signature (72-byte DER + hash type) for every key.
-struct EverySig;
-impl miniscript::Satisfier<bitcoin::PublicKey> for EverySig {
-    fn lookup_ecdsa_sig(&self, _: &bitcoin::PublicKey) -> Option<bitcoin::ecdsa::Signature> {
+/// A signer that has a maximum-size ECDSA signature (72-byte DER + hash type) for every key but one.
+struct EverySigBut(Option<bitcoin::PublicKey>);
+impl miniscript::Satisfier<bitcoin::PublicKey> for EverySigBut {
+    fn lookup_ecdsa_sig(&self, pk: &bitcoin::PublicKey) -> Option<bitcoin::ecdsa::Signature> {
+        if Some(*pk) == self.0 {
+            return None;
+        }
         let mut c = [0u8; 64];
         c[0] = 0x80;
         c[31] = 1;
@@ -250,7 +253,9 @@ fn legacy_limits_case(rep: &mut Report, case: u64, world: &World, rng: &mut Rng)
     match guarded(move || c2.compile::<Legacy>()) {
         Ok(Ok(ms)) => {
             let script_len = ms.encode().len();
-            let sat = guarded(std::panic::AssertUnwindSafe(|| ms.satisfy(EverySig)));
+            // the single cheap key is away: the spend has to go through the wide branch
+            let away = bitcoin::PublicKey::from_str(&keys[0]).ok();
+            let sat = guarded(std::panic::AssertUnwindSafe(|| ms.satisfy(EverySigBut(away))));
             match sat {
                 Ok(Ok(items)) => {
                     let script_sig = items.iter().map(|x| push_len(x.len())).sum::<usize>() + push_len(script_len);
